@@ -19,8 +19,8 @@ pub fn prop() -> Prop {
         id: "C07",
         level: "exploration",
         runs: |t| match t {
-            Tier::Quick => 500,
-            Tier::Thorough => 7000,
+            Tier::Quick => 3000,
+            Tier::Thorough => 30000,
         },
         generate,
         exec,
